@@ -5,8 +5,8 @@
    OPERANDS, the wfm/rfm dispatch tables, LANG_TYPES, SECTION_IDS.  The text form is NOT modelled
    (validated by round trip in the check).  [rt w r a] = the writer succeeds with some bytes bb and
    the reader returns (a, rest) from bb ++ rest for every rest. *)
-From PV Require Import Lib.Py Model.WasmTypes Gen.Tab_wasm_opcodes Gen.Tab_wasm_text Model.WasmBin Model.WasmCanon Model.WasmText Model.WasmTextDefs Model.WasmBinVal Spec.WasmOpcodeSpec
-  Proofs.C21_leb Proofs.C21_instr Proofs.C21_defs Proofs.C21_module Proofs.C21_spec Proofs.C21_canon Proofs.C21_text Proofs.C21_textdefs.
+From PV Require Import Lib.Py Model.WasmTypes Gen.Tab_wasm_opcodes Gen.Tab_wasm_text Model.WasmBin Model.WasmCanon Model.WasmText Model.WasmTextDefs Model.WasmBinVal Spec.WasmOpcodeSpec Spec.WasmAlignSpec
+  Proofs.C21_leb Proofs.C21_instr Proofs.C21_defs Proofs.C21_module Proofs.C21_spec Proofs.C21_canon Proofs.C21_text Proofs.C21_textdefs Proofs.C21_align.
 From Coq Require Import String Ascii.
 Local Open Scope string_scope.
 Local Open Scope list_scope.
@@ -373,7 +373,11 @@ Qed.
 (* ================= text form, definition level (Model.WasmTextDefs; tie H) =================
    memory, table, global and func definitions as the writer prints them for a module read from binary
    (ids are comments, numeric references, one anonymous (local ...) group); the parser's functions
-   restricted to that output.  Not covered (validation only): type, import, export, start, elem, data. *)
+   restricted to that output; since wave 4 also type, start and elem (table 0) definitions and the
+   (module ...) loop.  Not covered (validation only): import, export and data definitions (string
+   tokens / data-string escaping are not in the token model), elem on a table other than 0, the
+   S-expression lexer's chunking, symbolic identifiers and abbreviations; the parser's final
+   regrouping by section (gather_definitions) is the identity on a module read from binary. *)
 Theorem c21_text_instr_list_roundtrip : forall fs l ps fuel tail,
   forallb (wf_text fs) l = true -> print_instrs fs l = Ok ps -> (List.length l < fuel)%nat ->
   at_instruction tail = false -> safe_next tail = true ->
@@ -399,3 +403,38 @@ Proof.
   exists ps. split; [reflexivity|].
   rewrite <- (app_nil_r (lex ps)). apply c21_text_def_roundtrip; [vm_compute; reflexivity|exact E].
 Qed.
+
+(* definition lists and whole modules made of type, table, memory, global, start, elem and func definitions *)
+Theorem c21_text_defs_roundtrip : forall fs l ps fuel rest,
+  forallb (wf_text_def fs) l = true -> print_defs fs l = Ok ps -> (List.length l < fuel)%nat ->
+  parse_defs fs fuel (lex ps ++ TRpar :: rest) = Ok (l, TRpar :: rest).
+Proof. exact text_defs_rt. Qed.
+Print Assumptions c21_text_defs_roundtrip.
+
+Theorem c21_text_module_roundtrip : forall fs l ps,
+  forallb (wf_text_def fs) l = true -> print_module fs l = Ok ps ->
+  parse_module_text fs (lex ps) = Ok l.
+Proof. exact text_module_rt. Qed.
+Print Assumptions c21_text_module_roundtrip.
+
+Example c21_text_module_nonvacuous :
+  let m := [DType ["i32"; "i64"] ["f64"]; DType [] []; DTable "funcref" 2 (Some 8); DMemory 1 None;
+            DGlobal "i64" true [Instr "i64.const" [AInt (-1)]]; DStart ("func", 0);
+            DElem ("table", 0) [Instr "i32.const" [AInt 1]] [("func", 0); ("func", 0)];
+            DFunc ("type", 1) ["i32"; "f64"] text_example] in
+  forallb (wf_text_def toy_fs) m = true /\
+  (exists ps, print_module toy_fs m = Ok ps /\ parse_module_text toy_fs (lex ps) = Ok m).
+Proof.
+  cbv zeta. split; [vm_compute; reflexivity|].
+  match goal with |- exists ps, print_module ?f ?m = _ /\ _ =>
+    destruct (print_module f m) as [ps| | |] eqn:E; try (vm_compute in E; discriminate E);
+    exists ps; split; [reflexivity|]; apply (c21_text_module_roundtrip f m ps); [vm_compute; reflexivity|exact E]
+  end.
+Qed.
+
+(* the default (omitted "align=") alignments of the text writer/parser, exported into [text_mem] by calling
+   default_alignment, are the natural alignments derived from the access widths of Spec/WasmAlignSpec.v;
+   a differing row appears by name in the error of this proof *)
+Theorem c21_text_default_align_table : bad_align_rows = [] /\ unknown_mem_rows = [].
+Proof. exact default_align_table. Qed.
+Print Assumptions c21_text_default_align_table.
